@@ -359,6 +359,25 @@ func c03(args []string) int {
 		}
 	}
 	variants := []string{"idle", "app-continues", "app-restarts-wal"}
+	if one := os.Getenv("C03_ONE"); one != "" {
+		// debugging aid: C03_ONE="<scenario>;<k>;<variant>;<repetitions>" runs one kill point repeatedly
+		p := strings.Split(one, ";")
+		if len(p) == 4 {
+			k, _ := strconv.Atoi(p[1])
+			n, _ := strconv.Atoi(p[3])
+			for _, sc := range scs {
+				if sc.Name != p[0] {
+					continue
+				}
+				for i := 0; i < n; i++ {
+					r := e3RunKill(sc, k, p[2], "")
+					fmt.Printf("run %d: killed=%v before=%q during=%q problems=%v harness=%v\n", i, r.Killed, r.Before, r.InFlight, r.Problems, r.Harness)
+				}
+				return 0
+			}
+		}
+		return 2
+	}
 	if _, err := os.Stat(killatPath()); err != nil {
 		fmt.Fprintln(os.Stderr, "killat binary missing (run setup.sh):", err)
 		return 2
@@ -521,9 +540,14 @@ func c03(args []string) int {
 					for _, pr := range kr.Problems {
 						// replay-twice rule
 						again := e3RunKill(sc, j.k, j.v, "")
-						if !sameProblems(kr.Problems, again.Problems) {
+						for try := 0; try < 3 && (again.Harness != nil || !again.Killed); try++ {
+							// the repetition itself did not take place (worker start-up failed or the kill was not
+							// delivered, seen on an overloaded machine): not a second observation, repeat it
+							again = e3RunKill(sc, j.k, j.v, "")
+						}
+						if again.Harness != nil || !again.Killed || !sameProblems(kr.Problems, again.Problems) {
 							omu.Lock()
-							harnessErr = fmt.Errorf("nondeterministic kill run %s k=%d: %v vs %v", sc.Name, j.k, kr.Problems, again.Problems)
+							harnessErr = fmt.Errorf("nondeterministic kill run %s k=%d: %v vs %v (repetition: killed=%v harness=%v)", sc.Name, j.k, kr.Problems, again.Problems, again.Killed, again.Harness)
 							omu.Unlock()
 							return
 						}
